@@ -13,7 +13,7 @@ import (
 )
 
 // Version is bumped whenever generation changes; case lists record it.
-const Version = "g8"
+const Version = "g9"
 
 // Region of a case (chosen by index so that budgets per region are fixed).
 type Region int
@@ -252,12 +252,13 @@ func Valid(p string) (*syntax.Regexp, bool) {
 	return re, true
 }
 
-// RegionOf assigns regions by index: 70% ascii, 18% utf8, 12% illformed.
+// RegionOf assigns regions by index: 80% ascii, 14% utf8, 6% illformed
+// (regions in which the pinned tree has open findings get a bounded share).
 func RegionOf(i uint64) Region {
 	switch m := i % 50; {
-	case m < 35:
+	case m < 40:
 		return ASCII
-	case m < 44:
+	case m < 47:
 		return UTF8
 	default:
 		return Illformed
